@@ -3,7 +3,7 @@ from __future__ import annotations
 
 import json
 
-from . import fam_expr, fam_iter, fam_multi, fam_names, fam_pairs, fam_pool, fam_proc, fam_repo, fam_sql
+from . import fam_deep, fam_expr, fam_iter, fam_multi, fam_names, fam_pairs, fam_pool, fam_proc, fam_repo, fam_sql
 from .core import Part, open_findings
 
 REGISTRY = {
@@ -17,11 +17,11 @@ REGISTRY = {
     "C12": {"families": [fam_expr.run], "assumptions": [
         "SQLite 3.40 (the only database available offline) stands for 'a database'",
         "rows range over a,b in -3..4 (exhaustive part) ; deeper random expressions use the same rows"]},
-    "C01": {"families": [fam_iter.run], "assumptions": [
+    "C01": {"families": [fam_iter.run, fam_deep.run], "assumptions": [
         "leaf contents: 14 (quick) / all 85 (thorough) row lists of <=3 rows over a,b in 0..1, zero-column and key/non-key variants",
         "non-key columns are accompanied by the key columns that determine them (documented ColumnTag.is_key contract)",
         "calculated tags are globally fresh (column tags are absolute identifiers)"]},
-    "C02": {"families": [fam_sql.run], "assumptions": [
+    "C02": {"families": [fam_sql.run, fam_deep.run], "assumptions": [
         "SQLite 3.40 in memory is the database; both settings of PRAGMA reverse_unordered_selects stand for 'both legal physical row orders'",
         "bag equality is demanded exactly when TLC's DetTree says every slice sits under a total order (or has a trivial window) on this data",
         "SQLite cannot parse the parenthesised nested compound selects SQLAlchemy renders for a chain whose operand is a bare chain: such states are compiled but not executed (counted in evidence)"]},
@@ -32,7 +32,7 @@ REGISTRY = {
     "C10": {"families": [fam_proc.run], "assumptions": [
         "the leaf below the materializations is a counting lazy payload (iteration-sourced trees); at most one iteration of it over a whole history is the observable form of 'evaluated at most once'"]},
     "C08": {"families": [fam_sql.run, fam_iter.run], "assumptions": ["each occurrence of a leaf table in one query gets its own alias (as a user must do for self-joins)"]},
-    "C11": {"families": [fam_sql.run], "assumptions": ["list equality is demanded exactly when TLC's OrdTree says the outermost level carries a sort that totally orders its rows"]},
+    "C11": {"families": [fam_sql.run, fam_deep.run], "assumptions": ["list equality is demanded exactly when TLC's OrdTree says the outermost level carries a sort that totally orders its rows"]},
     "C17": {"families": [fam_sql.run, fam_repo.run], "assumptions": []},
     "C03": {"families": [fam_multi.run], "assumptions": [
         "content is compared after processing with a real SQLite<->iteration Processor; list equality when TLC's ListDet holds, bag equality when BagDet holds",
